@@ -34,14 +34,17 @@ var verifDir = func() string {
 }()
 
 type Job struct {
-	ID      int      `json:"id"`
-	Check   string   `json:"check"`
-	Tier    string   `json:"tier"`
-	Seed    uint64   `json:"seed"`
-	Tape    []uint32 `json:"tape,omitempty"`
-	Replay  bool     `json:"replay,omitempty"`
-	Trace   bool     `json:"trace,omitempty"`
-	Variant string   `json:"variant,omitempty"`
+	ID    int    `json:"id"`
+	Check string `json:"check"`
+	Tier  string `json:"tier"`
+	// HashOnly: determinism self-test: the scheduled run only, no post-run
+	// enumerations (their sampling is bounded by wall-clock time)
+	HashOnly bool     `json:"hash_only,omitempty"`
+	Seed     uint64   `json:"seed"`
+	Tape     []uint32 `json:"tape,omitempty"`
+	Replay   bool     `json:"replay,omitempty"`
+	Trace    bool     `json:"trace,omitempty"`
+	Variant  string   `json:"variant,omitempty"`
 }
 
 type Violation struct {
@@ -65,27 +68,27 @@ type RunStats struct {
 }
 
 type Result struct {
-	ID         int                    `json:"id"`
-	Check      string                 `json:"check"`
-	Seed       uint64                 `json:"seed"`
-	Violation  *Violation             `json:"violation,omitempty"`
-	Harness    string                 `json:"harness_error,omitempty"`
-	BudgetStop bool                   `json:"budget_stop,omitempty"`
-	Stats      RunStats               `json:"stats"`
-	StateSigs  []uint64               `json:"state_sigs,omitempty"`
-	Tape       []uint32               `json:"tape,omitempty"`
-	Knobs      map[string]interface{} `json:"knobs,omitempty"`
-	Ops        []string               `json:"ops,omitempty"`
-	Sched      []string               `json:"sched,omitempty"`
-	LogTail    []string               `json:"log_tail,omitempty"`
-	Labels     []string               `json:"labels,omitempty"`
-	LogHash    string                 `json:"log_hash,omitempty"`
-	Sample     interface{}            `json:"sample,omitempty"`
-	Extra      map[string]interface{} `json:"extra,omitempty"`
-	Fatal      bool                   `json:"fatal,omitempty"`
-	Observations []Violation          `json:"observations,omitempty"`
-	died       bool
-	stderr     string
+	ID           int                    `json:"id"`
+	Check        string                 `json:"check"`
+	Seed         uint64                 `json:"seed"`
+	Violation    *Violation             `json:"violation,omitempty"`
+	Harness      string                 `json:"harness_error,omitempty"`
+	BudgetStop   bool                   `json:"budget_stop,omitempty"`
+	Stats        RunStats               `json:"stats"`
+	StateSigs    []uint64               `json:"state_sigs,omitempty"`
+	Tape         []uint32               `json:"tape,omitempty"`
+	Knobs        map[string]interface{} `json:"knobs,omitempty"`
+	Ops          []string               `json:"ops,omitempty"`
+	Sched        []string               `json:"sched,omitempty"`
+	LogTail      []string               `json:"log_tail,omitempty"`
+	Labels       []string               `json:"labels,omitempty"`
+	LogHash      string                 `json:"log_hash,omitempty"`
+	Sample       interface{}            `json:"sample,omitempty"`
+	Extra        map[string]interface{} `json:"extra,omitempty"`
+	Fatal        bool                   `json:"fatal,omitempty"`
+	Observations []Violation            `json:"observations,omitempty"`
+	died         bool
+	stderr       string
 }
 
 func env() []string {
@@ -285,15 +288,15 @@ func (w *worker) do(job *Job, timeout time.Duration) *Result {
 // ---- known findings --------------------------------------------------------
 
 type Finding struct {
-	Property    string `json:"property"`
-	Oracle      string `json:"oracle"`
-	Match       string `json:"match"` // regexp over the violation message
+	Property       string `json:"property"`
+	Oracle         string `json:"oracle"`
+	Match          string `json:"match"`                      // regexp over the violation message
 	RaceBothStacks string `json:"race_both_stacks,omitempty"` // data races: regexp that every access stack of the report must contain
 	RaceTopFrame   string `json:"race_top_frame,omitempty"`   // data races: regexp that the innermost non-runtime frame of one access must match
-	What        string `json:"what"`
-	Status      string `json:"status"` // known | fixed
-	Commit      string `json:"commit,omitempty"`
-	Description string `json:"description,omitempty"`
+	What           string `json:"what"`
+	Status         string `json:"status"` // known | fixed
+	Commit         string `json:"commit,omitempty"`
+	Description    string `json:"description,omitempty"`
 }
 
 type Findings struct {
@@ -625,6 +628,20 @@ func sweep(bin string, def *checkDef, check, tier string, baseSeed uint64, cfg t
 				}
 				job := &Job{ID: i, Check: jcheck, Tier: tier, Seed: seedFor(baseSeed, i), Trace: wantSample}
 				r := w.do(job, timeout)
+				if hp := os.Getenv("VCHECK_DUMP_HASHES"); hp != "" {
+					// determinism aid: one line per job, to be compared between
+					// sweeps with different worker counts / GOMAXPROCS
+					mu.Lock()
+					if f, err := os.OpenFile(hp, os.O_APPEND|os.O_CREATE|os.O_WRONLY, 0644); err == nil {
+						v := ""
+						if r.Violation != nil {
+							v = r.Violation.Oracle
+						}
+						fmt.Fprintf(f, "%d %s %d %s w=%d %s\n", i, jcheck, job.Seed, r.LogHash, r.Stats.Windows, v)
+						f.Close()
+					}
+					mu.Unlock()
+				}
 				mu.Lock()
 				if abandon {
 					mu.Unlock()
@@ -1089,27 +1106,27 @@ func writeEvidence(def *checkDef, check, tier string, seed uint64, a *agg, wall 
 		evals, nt = int(a.extra["evaluations"]), int(a.extra["distinct_nontrivial"])
 	}
 	cov := map[string]interface{}{
-		"evaluations":         evals,
-		"distinct_nontrivial": nt,
-		"rule":                def.rule,
-		"samples":             a.samples,
-		"runs":                a.runs,
-		"runs_per_hour":       float64(a.runs) / wall * 3600,
-		"seeds":               fmt.Sprintf("seedFor(VERIF_SEED=%d, 0..%d)", seed, a.runs-1),
-		"scheduler_windows":   a.windows,
-		"directory_operations": a.dirOps,
-		"batches":             a.batches,
-		"monitor_reads":       a.monitor,
-		"simulated_time_ms":   a.simMs,
-		"distinct_schedules":  len(a.sched),
-		"distinct_layouts":    len(a.states),
-		"fault_kinds_fired":   a.faults,
-		"crash_images_probed": a.images,
-		"probes":              probes,
-		"unreached_probes":    unreached,
+		"evaluations":                   evals,
+		"distinct_nontrivial":           nt,
+		"rule":                          def.rule,
+		"samples":                       a.samples,
+		"runs":                          a.runs,
+		"runs_per_hour":                 float64(a.runs) / wall * 3600,
+		"seeds":                         fmt.Sprintf("seedFor(VERIF_SEED=%d, 0..%d)", seed, a.runs-1),
+		"scheduler_windows":             a.windows,
+		"directory_operations":          a.dirOps,
+		"batches":                       a.batches,
+		"monitor_reads":                 a.monitor,
+		"simulated_time_ms":             a.simMs,
+		"distinct_schedules":            len(a.sched),
+		"distinct_layouts":              len(a.states),
+		"fault_kinds_fired":             a.faults,
+		"crash_images_probed":           a.images,
+		"probes":                        probes,
+		"unreached_probes":              unreached,
 		"runs_stopped_at_window_budget": a.budgetStops,
 		"real_vs_stub": map[string]string{
-			"real": "packages bluge, index, index/mergeplan, index/lock, ice v1/v2, roaring, vellum, mmap-go, os (pass-through hooks), tmpfs files, flock, mmap",
+			"real":      "packages bluge, index, index/mergeplan, index/lock, ice v1/v2, roaring, vellum, mmap-go, os (pass-through hooks), tmpfs files, flock, mmap",
 			"simulated": "goroutine choice (gates, one release per window), select order (runtime overlay keyed per window), time (testing/synctest fake clock), durability and process death (images + prober child), injected errors",
 		},
 		"exhaustive": false,
